@@ -124,6 +124,11 @@ def make_values(recipe):
         vals[za] = 0.0
     if 0 <= na < npos:
         vals[na] = np.nan
+    nb = int(d.get("nan_bins", 0))
+    if nb:
+        # a few missing bins (e.g. masked frequencies) inside otherwise ordinary spectra
+        flat = vals.reshape(-1)
+        flat[rng.integers(0, flat.size, nb)] = np.nan
     return vals
 
 
